@@ -1,6 +1,7 @@
 (* C17 -- Probability truncation clips exactly and is applied wherever requested. *)
 From Coq Require Import QArith ZArith List.
-From Zepid Require Import Base.QUtil Model.Bounds Proofs.BoundsProofs.
+From Zepid Require Import Base.QUtil Model.Bounds Proofs.BoundsProofs GenProofs.GenProofs_pbounds.
+From ZepidGen Require Import Gen_pbounds_Q.
 Import ListNotations.
 Open Scope Q_scope.
 
@@ -50,6 +51,16 @@ Example C17_nonvacuous :
   bounded (BPair (7#10) (1#5)) [1#2] = None /\ bounded (BInt 1) [1#2] = None /\ bounded BStr [1#2] = None.
 Proof. vm_compute. repeat split; reflexivity. Qed.
 
+(* probability_bounds of the CURRENT source (translated on every run: rejection tests and masked assignments of the float
+   and of the pair branch, per element) is the model's validate + seq_clip1, and on accepted bounds the clip *)
+Theorem C17_src_float_branch : forall b v, oeq (pb_float_Q b v) (model_elem (BFloat b) v).
+Proof. exact gen_pb_float. Qed.
+Theorem C17_src_pair_branch : forall lo hi v, oeq (pb_pair_Q lo hi v) (model_elem (BPair lo hi) v).
+Proof. exact gen_pb_pair. Qed.
+Theorem C17_src_float_is_clip : forall b v, 0 <= b -> b <= 1 - b ->
+  exists x, pb_float_Q b v = Some x /\ x == clip1 b (1 - b) v.
+Proof. exact gen_pb_float_is_clip. Qed.
+
 Print Assumptions C17_symmetric_is_clip.
 Print Assumptions C17_pair_is_clip.
 Print Assumptions C17_seq_clip_is_clip.
@@ -60,3 +71,6 @@ Print Assumptions C17_clip_id_if_inside.
 Print Assumptions C17_weights_bounded.
 Print Assumptions C17_validate_rejects.
 Print Assumptions C17_validate_accepts.
+Print Assumptions C17_src_float_branch.
+Print Assumptions C17_src_pair_branch.
+Print Assumptions C17_src_float_is_clip.
